@@ -162,10 +162,16 @@ func ruleOwnerLocals(r *Report, pkgs []string) {
 					return
 				}
 				ck := CalleeKey(c)
-				if ck == "" || strings.HasSuffix(ck, ".currentSSTable") || strings.HasPrefix(ck, "builtin.") {
+				if ck == "" {
+					// dynamic call through a factory field (walOptions.readerFactory / writerFactory)
+					if _, f, _, ok := loadOfField(c.Call.Value); ok && strings.Contains(strings.ToLower(f), "factory") {
+						ck = "factory:" + f
+					} else {
+						return
+					}
+				} else if strings.HasSuffix(ck, ".currentSSTable") || strings.HasPrefix(ck, "builtin.") {
 					return // accessor of an owned value, not a creation
-				}
-				if !creates(p, c) {
+				} else if !creates(p, c) {
 					return
 				}
 				r.Saw(fn)
